@@ -9,6 +9,7 @@ with enough bytes buffered, and it never assigns to the read buffer itself (only
 is moved into the socket. Does NOT decide equality of decoded sequences over all partitions."""
 from ..sym import Sym, show, walk_expr, PathExplosion
 from . import names
+from .. import pathq
 from ..facts import callee_name
 from ..common import trait_impls, short, strip_casts, len_base, coroutine_of
 from ..pathq import default_inline
@@ -328,6 +329,8 @@ def check_framing_sites(f, rep):
     from . import hs
     pcs = [b for b in [hs.co(f, "driver")] if b is not None]
     role_of = {hs.anchors(f).get("greet"): "greet_exchange", hs.anchors(f).get("ready"): "ready_exchange"}
+    if hs.greeting_in_driver(f):
+        role_of.pop(None, None)     # the driver exchanges the greetings itself, on the connection it owns
     rep.floor("R02.4", "handshake driver", len(pcs), 1)
     for b in pcs:
         roots = {}
@@ -353,6 +356,25 @@ def check_framing_sites(f, rep):
             return l
         vals = {k: canon(v) for k, v in roots.items() if k != "register_moved"}
         same = len(vals) == 3 and len(set(vals.values())) == 1 and None not in vals.values()
+        if not same and roots.get("register_moved"):
+            # an exchange may run inside a crate-private async helper of the driver: then follow the value on the driver's paths -
+            # the connection each exchange is handed, and the one that is registered, are the same original value
+            def origin(x):
+                while isinstance(x, tuple) and x and (x[0] in ("ref", "deref") or x[0] == "havoc"):
+                    x = x[3] if x[0] == "havoc" else x[1]
+                return x
+            nreg = 0
+            same = True
+            for p in hs.driver_paths(f, b):
+                for i, ev in pathq.calls(p, "peer_connected"):
+                    if not (ev.fn and (ev.fn.get("trait") or "").endswith("MultiPeerBackend")) or len(ev.args) < 3:
+                        continue
+                    nreg += 1
+                    got = {role_of[e.name]: origin(e.args[0]) for _, e in pathq.calls(p, upto=i) if e.name in role_of and e.args}
+                    if set(got) != set(role_of.values()) or any(v != origin(ev.args[2]) for v in got.values()):
+                        same = False
+            same = same and nreg > 0
+            vals = dict(vals, followed_on_paths=nreg)
         rep.check(same and roots.get("register_moved"), "R02.4", "R02.4|same-framed-io",
                   "the FramedIo used for the greeting and READY exchanges is the one moved into MultiPeerBackend::peer_connected (locals %s)" % vals, b.loc())
     # read half flows to a live owner in each backend
